@@ -28,7 +28,8 @@ from ECAgent.Collectors import Collector, AgentCollector
 
 # swap: the model alternates between two worlds (day / night); late_seed: the model is built unseeded, lets the framework
 # pick once, and is handed its seed afterwards by installing a seeded generator as model.random
-KINDS = ['plain', 'grid', 'space', 'swap', 'late_seed']
+# self_seeded: the subclass idiom super().__init__() followed by self.random.seed(seed)
+KINDS = ['plain', 'grid', 'space', 'swap', 'late_seed', 'self_seeded']
 CROWD = 600          # more agents than any small-scope threshold a fast path might use
 
 META = {
@@ -109,7 +110,7 @@ class Gift(Core.System):
     def _add(self, a):
         m = self.model
         env = m.environment
-        if m.kind in ('plain', 'crowd', 'crowd_big', 'late_seed'):
+        if m.kind in ('plain', 'crowd', 'crowd_big', 'late_seed', 'self_seeded'):
             env.add_agent(a)
         elif m.kind in ('grid', 'swap'):
             env.add_agent(a, m.random.randrange(env.width), m.random.randrange(env.height))
@@ -131,7 +132,7 @@ class Walk(Core.System):
         env = m.environment
         tr = m.systems['trace'].records
         tr.append(('exec', self.id, m.systems.timestep, m.random.random()))     # draws even in the plain model
-        if m.kind in ('plain', 'crowd', 'crowd_big', 'late_seed'):
+        if m.kind in ('plain', 'crowd', 'crowd_big', 'late_seed', 'self_seeded'):
             return
         for a in env.shuffle():
             if m.kind in ('grid', 'swap'):
@@ -174,7 +175,9 @@ def _even(seed):
 
 class SModel(Core.Model):
     def __init__(self, kind='plain', seed=1, n=5, horizon=None):
-        super().__init__(seed=None if kind == 'late_seed' else seed)
+        super().__init__(seed=None if kind in ('late_seed', 'self_seeded') else seed)
+        if kind == 'self_seeded':
+            self.random.seed(seed)
         self.kind = kind
         if kind == 'crowd':
             n = CROWD
@@ -360,6 +363,7 @@ def interleaving_cases(tier, seed):
     steps = 2 if tier == 'quick' else 3
     combos = [[['plain', s1], ['grid', s2]], [['grid', s1], ['space', s2]], [['plain', s1], ['plain', s1]],
               [['space', s2], ['plain', s2]], [['swap', s1], ['grid', f'run-{seed}']], [['late_seed', s1], ['plain', s2]],
+              [['self_seeded', s1], ['self_seeded', s2]],
               # seeds that compare equal but are different seeds for random.Random (int / float)
               [['plain', -3 - seed], ['plain', -3.0 - seed]], [['grid', 10 ** 20], ['grid', 1e20]]]
     if tier == 'thorough':
@@ -503,6 +507,13 @@ def run(ctx):
             hbfs._guard(repeat_case, case)
         except Violation as v:
             ctx.report(case, v)
+    for n in (10, 70, 300):
+        case = {'leg': 'import_state', 'n': n, 'seed': ctx.seed * 1000 + 1}
+        ctx.traces += 3
+        try:
+            hbfs._guard(import_state_case, case)
+        except Violation as v:
+            ctx.report(case, v)
     case = {'leg': 'huge_population', 'n': 100001, 'seed': ctx.seed * 1000 + 1}
     ctx.traces += 2
     try:
@@ -529,6 +540,53 @@ def run(ctx):
     par.pmap(ctx, matrix_fn, mc, procs=min(ctx.procs, 8))
     ctx.leg('process_matrix', cells=len(mc))
     ctx.sample(mc[-1])
+
+
+IMPORT_CHILD = r'''
+import sys
+sys.path.insert(0, sys.argv[1])
+if sys.argv[2] == 'numpy_first':
+    import numpy
+elif sys.argv[2] == 'environments_first':
+    import ECAgent.Environments
+import ECAgent.Core as Core
+class W(Core.Component):
+    pass
+m = Core.Model(seed=int(sys.argv[3]))
+for i in range(int(sys.argv[4])):
+    a = Core.Agent('a%d' % i, m, tag=i % 2)
+    if i % 5:
+        a.add_component(W(a, m))
+    m.environment.add_agent(a)
+out = []
+for _ in range(3):
+    out.append([a.id for a in m.environment.shuffle()][:12])
+    out.append([a.id for a in m.environment.shuffle(W)][:12])
+    out.append([a.id for a in m.environment.shuffle(tag=1)][:12])
+    out.append(m.environment.get_random_agent(W).id)
+    out.append(m.environment.get_random_agent().id)
+print('TRAJ ' + repr(out))
+'''
+
+
+def import_state_case(case):
+    """The same model code and seed in three fresh interpreters that differ only in what else has been imported (nothing,
+    numpy, the library's Environments module): one trajectory."""
+    tree = os.path.dirname(os.path.dirname(os.path.abspath(Core.__file__)))
+    outs = {}
+    for how in ('bare', 'numpy_first', 'environments_first'):
+        r = subprocess.run([sys.executable, '-c', IMPORT_CHILD, tree, how, str(case['seed']), str(case['n'])],
+                           capture_output=True, text=True, env=dict(os.environ, PYTHONHASHSEED='0'), timeout=300)
+        line = next((ln for ln in r.stdout.splitlines() if ln.startswith('TRAJ ')), None)
+        if line is None:
+            raise Violation(f'child interpreter ({how}) failed', observed=(r.stderr.strip().splitlines() or [''])[-1])
+        outs[how] = line
+    if len(set(outs.values())) != 1:
+        other = next(h for h in outs if outs[h] != outs['bare'])
+        raise Violation(f'a model of {case["n"]} agents with seed {case["seed"]} gives another trajectory in an interpreter '
+                        f'that imported {other.split("_")[0]} before the model ran', expected=outs['bare'][:160],
+                        observed=outs[other][:160])
+    return 3
 
 
 REPEAT_CHILD = r'''
@@ -640,6 +698,9 @@ def repeat_case(case):
 
 
 def replay(case):
+    if case['leg'] == 'import_state':
+        hbfs._guard(import_state_case, case)
+        return
     if case['leg'] == 'huge_population':
         hbfs._guard(huge_population_case, case)
         return
